@@ -178,6 +178,7 @@ class Ctx:
         c.cache = dict(self.cache)
         c.trace = list(self.trace)
         c.norms = list(getattr(self, "norms", []))
+        c.pin_lz = getattr(self, "pin_lz", None)
         c.mark = getattr(self, "mark", None)
         c.base = getattr(self, "base", 0)
         return c
@@ -386,6 +387,14 @@ def normalise(ctx, x, w):
         lz = w - x.bit_length()
         r = ((x << lz) & ((1 << w) - 1), lz)
         ctx.cache[key] = r
+        return r
+    pin = getattr(ctx, "pin_lz", None)
+    if pin is not None and pin[0] == x.s and pin[2] == w:
+        # the caller restricted x to [2^(w-1-k), 2^(w-k)): leading_zeros(x) is k and x << k is linear
+        k = pin[1]
+        r = (T("(* %d %s)" % (1 << k, x.s), x.lo << k, x.hi << k, k), k)
+        ctx.cache[key] = r
+        ctx.cache[("lzof_pinned", x.s)] = r
         return r
     lzv = ctx.fresh("lz", 0, w)
     nv = ctx.fresh("n", 0, 2 ** w - 1)
@@ -638,6 +647,7 @@ class Interp:
         self.max_blocks = 20000
         self.tolerate_unsupported = False
         self.unsupported_paths = []
+        self.infeasible_dropped = 0
 
     # -- lookup
     def find_fn(self, callee):
@@ -1167,6 +1177,9 @@ class Interp:
         except Unsupported as ex:
             if not self.tolerate_unsupported:
                 raise
+            if proves(ctx, "false"):
+                self.infeasible_dropped += 1       # the path constraints are contradictory: nothing is lost
+                return
             self.unsupported_paths.append("%s:%s %s" % (f.name.split("::")[-1], bb, ex))
 
     def _run_block(self, f, bb, env, ctx, depth):
